@@ -108,8 +108,8 @@ CLAIMED.update({
          "the MLE output after a bounded number of real sweeps, calculate_eq_probs=False => None, and that the caller's matrix is unchanged.",
     note='Trusted: shim, z3 (two versions), eig/sqrt/log contracts, and the scipy.sparse shadow (symnp/sparse.py: result formats, element types, '
          'copy/share rules; checked against the installed scipy on every run by the sparse-shadow-conformance job; replays use the real classes). '
-         'normalize/transpose also run on each of the 7 sparse containers with integer and float counts. Outside: builders.mle on sparse input, '
-         'float rounding, convergence of the MLE iteration.',
+         'normalize/transpose also run on each of the 7 sparse containers with integer and float counts. builders.mle runs on sparse containers with its solver bounded to one sweep (np.matrix semantics of todense() are modelled: SymMatrix). '
+         'Outside: float rounding, convergence of the MLE iteration.',
     ref='DESIGN.md section 8 C04'),
  'C16': dict(
     technique='symbolic execution of MSM.fit against the composed function pipeline on symbolic assignments; eigenspectrum/timescales under the eig contract; ensemble propagation as polynomial identity; z3',
